@@ -75,8 +75,8 @@ Fixpoint newton (L : libm) (iters : nat) (E e M tol : float) : float :=
   end.
 
 (* intermediate values of the Kepler branch (also used by the theorems about the skeleton) *)
-Record kepler := { k_r : float; k_delta : float; k_temp : float; k_n : float; k_M : float; k_e : float;
-                   k_E0 : float }.
+Record kepler := { kf_r : float; kf_delta : float; kf_temp : float; kf_n : float; kf_M : float; kf_e : float;
+                   kf_E0 : float }.
 Definition kepler_setup (L : libm) (H : helix) (p : spoint) : kepler :=
   let u := sp_x L p in                                              (* :172 *)
   let v := sp_y L p in                                              (* :173 *)
@@ -87,7 +87,7 @@ Definition kepler_setup (L : libm) (H : helix) (p : spoint) : kepler :=
   let M := PI + TWO_PI * n - temp in                                (* :180 *)
   let e := 4 * (PI * PI) * r * hr H / (hh H * hh H) in              (* :181 powi(2) = x*x *)
   let E0 := if M <? q_new 0 then - PI else PI in                    (* :192 *)
-  {| k_r := r; k_delta := delta; k_temp := temp; k_n := n; k_M := M; k_e := e; k_E0 := E0 |}.
+  {| kf_r := r; kf_delta := delta; kf_temp := temp; kf_n := n; kf_M := M; kf_e := e; kf_E0 := E0 |}.
 
 (* reconstruction.rs:153 Helix::closest_t *)
 Definition closest_t (L : libm) (H : helix) (p : spoint) (tolerance : float) (max_num_iter : nat) : float :=
@@ -98,8 +98,8 @@ Definition closest_t (L : libm) (H : helix) (p : spoint) (tolerance : float) (ma
   else
     let tol := q_new (abs tolerance) in                             (* :170 *)
     let K := kepler_setup L H p in
-    let E := newton L max_num_iter (k_E0 K) (k_e K) (k_M K) tol in
-    let t := PI - E + TWO_PI * k_n K - hphi0 H + k_delta K in       (* :205 *)
+    let E := newton L max_num_iter (kf_E0 K) (kf_e K) (kf_M K) tol in
+    let t := PI - E + TWO_PI * kf_n K - hphi0 H + kf_delta K in       (* :205 *)
     clamp (q_get t) (- PI) PI.                                      (* :211 *)
 
 (* reconstruction.rs:214 closest_to_beamline *)
